@@ -1882,6 +1882,11 @@ func handleClientMessage(c *webClient, m clientMessage) error {
 			if err != nil {
 				return terror("error", err.Error())
 			}
+			if old.Group != c.group.Name() {
+				return terror(
+					"error", os.ErrNotExist.Error(),
+				)
+			}
 			t := old.Clone()
 			if tok.Expires != nil {
 				t.Expires = tok.Expires
